@@ -541,7 +541,8 @@ async fn remote<P: Protocol>(
         } else {
             AwaitingWill::Cancel
         };
-        sender.try_send(awaiting_will).unwrap();
+        // the receiver is gone if the task of that connection has ended already
+        sender.try_send(awaiting_will).ok();
     }
 
     let (will_tx, will_rx) = flume::bounded::<AwaitingWill>(1);
@@ -564,6 +565,8 @@ async fn remote<P: Protocol>(
         Ok(l) => l,
         Err(e) => {
             error!(error=?e, "Remote link error");
+            // the link never started: nobody is going to wait for a decision on its will
+            will_handlers.lock().unwrap().remove(&client_id);
             return;
         }
     };
